@@ -240,7 +240,95 @@ def open_files_facts(tree):
                 and extract.calls_in(s, "_raise_if_not_alive"):
             final = True
     return {"link_gone": link_gone, "info_gone": info_gone, "read_gone": read_gone, "prefix": prefix,
-            "pos": (pos_idx, pos_base), "flags": (fl_idx, fl_base), "final": final}
+            "pos": (pos_idx, pos_base), "flags": (fl_idx, fl_base), "final": final,
+            "link_denied_raises": _link_denied_raises(rl[0], par, loop)}
+
+
+DENIED_ERRNOS = ("EACCES", "EPERM")
+CATCH_ALL = ("OSError", "EnvironmentError", "IOError", "Exception", "BaseException")
+
+
+def _link_denied_raises(node, par, stop):
+    """Does an EACCES / EPERM raised by `readlink(file)` leave the loop as an exception?
+    Walk the enclosing `try`s inside out; the first handler whose classes match PermissionError
+    decides: it re-raises iff its last statement is a bare `raise` and no `if err.errno == errno.X`
+    / `in (...)` test that `continue`s names EACCES or EPERM."""
+    cur = node
+    while cur is not stop and cur in par:
+        p = par[cur]
+        if isinstance(p, ast.Try) and any(cur is b or _contains(b, cur) for b in p.body):
+            for h in p.handlers:
+                classes = _handler_classes(h)
+                if not any(c in CATCH_ALL + ("PermissionError",) for c in classes):
+                    continue
+                if _sets_hit(h):
+                    return False              # swallowed as "gone" (reported by linkGoneDenied)
+                last = h.body[-1]
+                if not (isinstance(last, ast.Raise) and last.exc is None):
+                    return False
+                for st in h.body[:-1]:
+                    if isinstance(st, ast.If):
+                        names = {n.attr for n in ast.walk(st.test) if isinstance(n, ast.Attribute)
+                                 and extract.dotted(n.value) == "errno"}
+                        leaves = any(isinstance(x, (ast.Continue, ast.Break, ast.Return)) for x in ast.walk(st))
+                        if leaves and (names & set(DENIED_ERRNOS) or not names):
+                            return False
+                    elif any(isinstance(x, (ast.Continue, ast.Break, ast.Return)) for x in ast.walk(st)):
+                        return False
+                return True
+        cur = p
+    return True                               # no handler at all: it propagates
+
+
+def strict_stat_facts(snap):
+    """`isfile_strict` / `path_exists_strict` of _common.py: is PermissionError re-raised before the
+    generic `except OSError` that answers False?"""
+    tree = extract.parse_module(snap, "_common.py")
+    out = {}
+    for name in ("isfile_strict", "path_exists_strict"):
+        fn = extract.find_def(tree, name)
+        tries = [s for s in fn.body if isinstance(s, ast.Try)]
+        if len(tries) != 1:
+            raise NotRecognised("%s: one try expected" % name)
+        t = tries[0]
+        if not any(isinstance(n, ast.Call) and extract.dotted(n.func) == "os.stat" for s in t.body for n in ast.walk(s)):
+            raise NotRecognised("%s: os.stat(path) inside the try" % name)
+        reraises = False
+        for h in t.handlers:
+            classes = _handler_classes(h)
+            if any(c in CATCH_ALL + ("PermissionError",) for c in classes):
+                reraises = (len(h.body) == 1 and isinstance(h.body[0], ast.Raise) and h.body[0].exc is None)
+                break
+        out[name] = reraises
+    return out
+
+
+def wrap_facts(tree):
+    """`wrap_exceptions` of _pslinux.py: PermissionError → AccessDenied; `_raise_if_zombie()` first in
+    the ProcessLookupError and FileNotFoundError handlers."""
+    fn = extract.find_def(tree, "wrap_exceptions")
+    tries = [n for n in ast.walk(fn) if isinstance(n, ast.Try)]
+    if len(tries) != 1:
+        raise NotRecognised("wrap_exceptions: one try expected")
+    t = tries[0]
+    perm_ad = False
+    seen_perm = False
+    zombie_first = {}
+    for h in t.handlers:
+        classes = _handler_classes(h)
+        if not seen_perm and any(c in CATCH_ALL + ("PermissionError",) for c in classes):
+            seen_perm = True
+            perm_ad = (len(h.body) == 1 and isinstance(h.body[0], ast.Raise) and h.body[0].exc is not None
+                       and isinstance(h.body[0].exc, ast.Call) and extract.dotted(h.body[0].exc.func) == "AccessDenied"
+                       and [ast.unparse(a) for a in h.body[0].exc.args][:1] == ["pid"])
+        for c in ("ProcessLookupError", "FileNotFoundError"):
+            if c in classes and c not in zombie_first:
+                first = h.body[0]
+                zombie_first[c] = (isinstance(first, ast.Expr) and isinstance(first.value, ast.Call)
+                                   and extract.dotted(first.value.func) == "self._raise_if_zombie")
+    if set(zombie_first) != {"ProcessLookupError", "FileNotFoundError"}:
+        raise NotRecognised("wrap_exceptions: ProcessLookupError / FileNotFoundError handlers")
+    return {"perm_ad": perm_ad, "zombie_first": all(zombie_first.values())}
 
 
 def _find_method_anywhere(tree, cls, name):
@@ -375,3 +463,27 @@ def facts(snap, F):
     F.try_add("pioFields", "List (List Nat)", lambda: lean_list(get("pio", pio_fields), lean_bytes), "pio._fields")
     F.try_add("ioIntGuarded", "Bool", lambda: lean_bool(i()["guarded"]),
               "int(value) sits inside the try whose `except ValueError` skips the line")
+
+    def st():
+        return get("strict", lambda _t: strict_stat_facts(snap))
+
+    def w():
+        return get("wrap", wrap_facts)
+
+    def has_exact(classes, name):
+        return lean_bool(any(c in (name,) + CATCH_ALL for c in classes))
+
+    F.try_add("isfileDeniedRaises", "Bool", lambda: lean_bool(st()["isfile_strict"]),
+              "isfile_strict re-raises PermissionError (EACCES / EPERM from os.stat) instead of answering False")
+    F.try_add("existsDeniedRaises", "Bool", lambda: lean_bool(st()["path_exists_strict"]),
+              "path_exists_strict re-raises PermissionError instead of answering False")
+    F.try_add("linkGoneDenied", "Bool", lambda: has_exact(o()["link_gone"], "PermissionError"),
+              "the handler around readlink(file) that sets hit_enoent also catches PermissionError")
+    F.try_add("linkDeniedRaises", "Bool", lambda: lean_bool(o()["link_denied_raises"]),
+              "EACCES / EPERM from readlink(file) is re-raised by the `except OSError` handler (not one of the errnos it skips)")
+    F.try_add("infoGoneDenied", "Bool", lambda: has_exact(o()["info_gone"], "PermissionError"),
+              "the handler around the fdinfo block that sets hit_enoent also catches PermissionError")
+    F.try_add("wrapPermAD", "Bool", lambda: lean_bool(w()["perm_ad"]),
+              "wrap_exceptions turns PermissionError into AccessDenied(pid, ...)")
+    F.try_add("wrapZombieFirst", "Bool", lambda: lean_bool(w()["zombie_first"]),
+              "wrap_exceptions calls self._raise_if_zombie() first in the ProcessLookupError and FileNotFoundError handlers")
